@@ -1,6 +1,8 @@
 pub mod common;
 
+pub mod c01;
 pub mod c02;
+pub mod seqs;
 pub mod c05;
 pub mod c06;
 pub mod c07;
@@ -10,13 +12,16 @@ pub mod c11;
 pub mod c12;
 pub mod c13;
 pub mod c14;
+pub mod c17;
 
 use crate::runner::{replay_prop, run_prop, Tier};
 
 macro_rules! dispatch {
     ($id:expr, $f:ident, $($arg:expr),*) => {
         match $id {
+            "C01" => $f(&c01::C01, $($arg),*),
             "C02" => $f(&c02::C02, $($arg),*),
+            "C17" => $f(&c17::C17, $($arg),*),
             "C05" => $f(&c05::C05, $($arg),*),
             "C06" => $f(&c06::C06, $($arg),*),
             "C10" => $f(&c10::C10, $($arg),*),
